@@ -15,7 +15,7 @@ PROFILES = [('c03-nofail-solo', 3000), ('c03-solo', 5000), ('c03', 12000)]
 
 
 def batches(tier):
-    k = 1 if tier == 'quick' else 12
+    k = 1 if tier == 'quick' else 40
     return [{'name': n, 'n': c * k, 'profile': n} for n, c in PROFILES]
 
 
